@@ -7,6 +7,8 @@
 //!    nodes in sequences / maps / structs, weak edges to live and dropped targets, cycles through the
 //!    recursive wrappers, unshared wrappers in between): the pointer-equality partition is the same
 //!    before and after; aliases read into plain fields give equal independent copies.
+//!    Also: a shared node of every kind (None, unit, scalars, block-scalar strings, flow collections, tuples, structs, all
+//!    enum variant kinds) as struct fields / sequence elements / map values / through Arc with live and dangling weak edges.
 use crate::coq;
 use crate::ctx::{Ctx, Rng};
 use crate::util;
